@@ -11,13 +11,18 @@ pub fn copy_file_range(
     dest_offset: u64,
     len: usize,
 ) -> crate::Result<usize> {
+    // The kernel takes pointers to the offsets (which it updates), not the offsets themselves.
+    // A plain `0` would be a null pointer meaning "use and move the file position",
+    // anything else is dereferenced as an address.
+    #[expect(clippy::cast_possible_wrap)]
+    let (mut src_off, mut dest_off) = (src_offset as i64, dest_offset as i64);
     let res = unsafe {
         syscall!(
             COPY_FILE_RANGE,
             src_fd.value(),
-            src_offset,
+            core::ptr::addr_of_mut!(src_off),
             dest_fd.value(),
-            dest_offset,
+            core::ptr::addr_of_mut!(dest_off),
             len,
             0
         )
